@@ -73,6 +73,8 @@ def gen_whole(rng, max_funcs=3):
         # (an address space only on functions nothing refers to: a reference spells the pointer type of the function, address space included)
         alltext = " ".join(x for f in funcs for x in f)
         funcs = [core3gen.with_pattrs(rng, core3gen.with_tail(rng, core3gen.with_lead(rng, f), addrspace_ok=("@" + f[1].split("~")[0]) not in alltext)) for f in funcs]
+        # variadic functions (`...` behind the last parameter): only functions nothing refers to
+        funcs = [core3gen.with_variadic(rng, f) if ("@" + f[1].split("~")[0]) not in alltext else f for f in funcs]
         # metadata attachments on instructions, referring to definitions of the metadata section (which is printed AFTER the functions)
         if dd != "-" and rng.random() < 0.7:
             ids = [int(e.split(":")[0]) for e in dd.split("|")]
@@ -193,6 +195,19 @@ def mutants(rng, text):
         m = re.match(rb"(define|declare) ", lines[k])
         for kw in rng.sample([b"internal", b"hidden", b"dso_local", b"fastcc", b"dllimport", b"extern_weak", b"amdgpu_kernel", b"linkonce_odr"], 2):
             out.append(("header-keyword-added", with_line(k, lines[k][:m.end()] + kw + b" " + lines[k][m.end():])))
+    # the marker of a variadic function: `...` behind the last parameter
+    vlists = [(k, m) for k in fn + dc for m in [re.match(rb"(?:define|declare) [^()]*\(([^()]*)\)", lines[k])] if m]
+    if vlists:
+        k, m = rng.choice(vlists)
+        inner = m.group(1)
+        a, b = m.start(1), m.end(1)
+        if inner.endswith(b"..."):
+            out.append(("variadic-dropped", with_line(k, lines[k][:a] + inner[:-3].rstrip(b", ") + lines[k][b:])))
+            out.append(("variadic-doubled", with_line(k, lines[k][:b] + b", ..." + lines[k][b:])))
+            out.append(("variadic-not-last", with_line(k, lines[k][:a] + b"..., " + inner[:-3].rstrip(b", ") + lines[k][b:]) if inner != b"..." else text))
+        else:
+            out.append(("variadic-added", with_line(k, lines[k][:b] + (b", ..." if inner else b"...") + lines[k][b:])))
+            # (`..` is no test: the lexer of llir/ll drops what it cannot tokenise)
     # keywords of global variables: one of each family (linkage, preemption, visibility, DLL storage class, thread-local model, unnamed_addr,
     # externally_initialized), in the order of the grammar
     GKW = rb"(?:appending|available_externally|common|internal|linkonce_odr|linkonce|private|weak_odr|weak|dso_local|dso_preemptable|default|hidden|protected|dllexport|dllimport|thread_local(?:\([a-z]+\))?|local_unnamed_addr|unnamed_addr|externally_initialized)"
